@@ -22,6 +22,9 @@ type PathQ struct {
 	// through negations and boolean flag variables (φ of a condition) and the outcome taken;
 	// returning false prunes the edge.
 	EdgeCond func(cond ssa.Value, outcome bool) bool
+	// GoalEnv, when set, receives the tracked boolean environment (flag φs and cells with a known value)
+	// at the moment a Goal is reached — used to carry a helper's constant result to its call site.
+	GoalEnv *map[ssa.Value]bool
 }
 
 // walk explores paths with a small path-sensitive environment: boolean φ-nodes whose incoming
@@ -275,6 +278,11 @@ func (st *walkState) run(b *ssa.BasicBlock, start int, env map[ssa.Value]bool, a
 			return nil
 		}
 		if st.q.Goal(in) {
+			if st.q.GoalEnv != nil {
+				for k, v := range env {
+					(*st.q.GoalEnv)[k] = v
+				}
+			}
 			return in
 		}
 		if s, ok := in.(*ssa.Store); ok {
